@@ -168,6 +168,10 @@ pub struct Config {
     /// full get-sweep after every operation when len <= this
     #[serde(default = "sweep_default")]
     pub sweep_below: u32,
+    /// C13: allocation_size() must stay <= churn_bound x the allocation of a fresh
+    /// with_capacity(peak live size) at every step (0 = not checked)
+    #[serde(default)]
+    pub churn_bound: u32,
 }
 fn lawful() -> EqMode {
     EqMode::Lawful
